@@ -2,6 +2,7 @@ import LeanHelix.Driver.Quorum
 import LeanHelix.Driver.Kernels
 import LeanHelix.Driver.Filter
 import LeanHelix.Driver.Node
+import LeanHelix.Driver.NetAdm
 import LeanHelix.Driver.BlockProof
 import LeanHelix.Driver.Wire
 /-!
@@ -54,4 +55,5 @@ def main (args : List String) : IO UInt32 := do
   | ["loops"] => loopsStep_loop stdin stdout; return 0
   | ["wire"] => loopLines stdin stdout LeanHelix.WireDriver.wireLine; return 0
   | ["node"] => loopStateful stdin stdout ([] : Nodes) nodeStep; return 0
+  | ["netadm"] => loopStateful stdin stdout ({} : AdmState) admStep; return 0
   | _ => IO.eprintln "usage: lhdriver <suite>"; return 2
